@@ -48,8 +48,8 @@ var importSwap = map[string]string{
 
 var timeFuncs = map[string]bool{"Now": true, "Since": true, "Until": true, "After": true, "AfterFunc": true, "NewTimer": true, "NewTicker": true, "Sleep": true, "Timer": true, "Ticker": true}
 var timeForbidden = map[string]bool{"Tick": true}
-var ctxFuncs = map[string]bool{"WithTimeout": true, "WithDeadline": true}
-var ctxForbidden = map[string]bool{"AfterFunc": true, "WithTimeoutCause": true, "WithDeadlineCause": true}
+var ctxFuncs = map[string]bool{"WithTimeout": true, "WithDeadline": true, "WithCancel": true}
+var ctxForbidden = map[string]bool{"AfterFunc": true, "WithTimeoutCause": true, "WithDeadlineCause": true, "WithCancelCause": true}
 
 type fileCtx struct {
 	pkg   *packages.Package
@@ -445,7 +445,8 @@ func (c *fileCtx) rewriteMapRange(r *ast.RangeStmt) ast.Stmt {
 	if id, ok := valLhs.(*ast.Ident); ok && id.Name != "_" && tok == token.DEFINE {
 		body = append(body, &ast.AssignStmt{Lhs: []ast.Expr{ast.NewIdent("_")}, Tok: token.ASSIGN, Rhs: []ast.Expr{ast.NewIdent(id.Name)}})
 	}
-	body = append(body, r.Body.List...)
+	// the original body keeps its own scope (it may redeclare the loop variables)
+	body = append(body, r.Body)
 	return &ast.RangeStmt{Key: ast.NewIdent("_"), Value: ast.NewIdent(iterKey), Tok: token.DEFINE, X: call(sel("vrt", "MapKeys"), r.X), Body: &ast.BlockStmt{List: body}}
 }
 
